@@ -154,7 +154,7 @@ def run(facts, rep, ctx):
                     if outs is None:
                         break
                     rows += 1
-                    panics = [o for o in outs if o["panic"]]
+                    panics = [o for o in outs if o["panic"] and "(assertion)" not in str(o["panic"]) and (o["definite"] or "explicit panic" not in str(o["panic"]))]
                     if panics:
                         bad.append(("panic", S, a, m, panics[0]["panic"]))
                         continue
@@ -175,7 +175,10 @@ def run(facts, rep, ctx):
                             undecided.add("%s: a success path could not be excluded at size=%s address=%s (a condition on it is not evaluable)" % (short, S, hexs(a)))
                         for o in errs:
                             if any(data_access_events(p) for p in o["paths"]):
-                                bad.append(("access-before-error", S, a, m, ""))
+                                if o["definite"]:
+                                    bad.append(("access-before-error", S, a, m, ""))
+                                else:
+                                    undecided.add("%s: an error path that touches the data could not be excluded at size=%s address=%s" % (short, S, hexs(a)))
         for u_ in sorted(undecided)[:1]:
             rep.inconc(R2, u_)
         if bad:
@@ -470,7 +473,9 @@ MUTATORS = ("insert", "remove", "push", "pop", "clear", "drain", "splice", "trun
 
 BORROW_ONLY = ("get_mut", "index_mut", "deref_mut", "entry", "iter_mut", "values_mut", "as_mut", "as_mut_slice",
                "branch", "from_residual", "split_at_mut", "split_first_mut", "split_last_mut", "chunks_mut",
-               "chunks_exact_mut", "first_mut", "last_mut", "get_unchecked_mut", "unwrap", "expect")
+               "chunks_exact_mut", "first_mut", "last_mut", "get_unchecked_mut", "unwrap", "expect",
+               # Option / Result plumbing that only re-wraps the handle
+               "ok_or", "ok_or_else", "map_err", "ok")
 RESIZING = ("insert", "remove", "push", "pop", "clear", "drain", "splice", "truncate", "resize", "extend", "retain",
             "append", "dedup", "split_off", "swap_remove", "extend_from_slice", "set_len", "resize_with")
 IN_PLACE = ("store", "copy_from_slice", "clone_from_slice", "fill", "swap", "copy_within", "write", "replace")
@@ -560,9 +565,60 @@ def zero_length_runs(facts, rep, R7, E):
                 break
 
 
+def cursor_primitives(facts, rep, R7):
+    """seek(p) makes the cursor exactly p, skip(n) exactly cursor + n, tell() reports it: the cursor is an address like
+    any other, a stream call at it must do what the positional call does *there* -- also beyond the end, where the
+    positional call reports out-of-bounds.  Witness of a violation: the stored cursor is capped by the archive size
+    (`min` / `clamp` / a size read inside the stored value)."""
+    for cls in ("BinArchiveReader", "BinArchiveWriter"):
+        prefix = "mila::bin_streams::%s::<'a>::" % cls
+        views = {b.name: b for b in facts.views()}
+        for short in ("seek", "skip"):
+            b = views.get(prefix + short)
+            if b is None or b.argc != 2:
+                continue
+            where = "%s:%s" % (b.file, b.line)
+            try:
+                paths = [p for p in enum_paths(b) if p.end == "ret"]
+            except PathLimit:
+                rep.inconc(R7, b.name + ": too many paths")
+                continue
+            verdict = "ok"
+            for p in paths:
+                stored = [e["val"] for e in p.events if e["k"] == "write" and root_field(e["place"])[:2] == (True, "position")]
+                stored += [e["args"][1] for e in p.events if e["k"] == "call" and e["callee"] in (prefix + "seek",) and e["callee"] != b.name and len(e["args"]) == 2]
+                if not stored:
+                    verdict = "a path of %s does not set the cursor" % short if verdict == "ok" else verdict
+                    continue
+                t = stored[-1]
+                caps = [x[1].rsplit("::", 1)[-1] for x in walk(t) if x[0] == "call" and (
+                    x[1].rsplit("::", 1)[-1] in ("min", "clamp") or x[1].endswith("BinArchive::size") or
+                    (x[1].rsplit("::", 1)[-1] == "len" and any(y[0] == "field" and y[2] == "data" for y in walk(x))))]
+                if caps and any(x[0] == "param" and x[1] == 2 for x in walk(t)):
+                    rep.violation(R7, b.name, "cursor-clamped",
+                                  "%s::%s stores %s as the cursor: a position beyond the end is pulled back to the archive size, so the stream call that follows acts at `size` where the positional call at the requested address reports out-of-bounds (a label written at size+4 lands on the end address; tell() no longer returns what was sought)" % (
+                                      cls, short, fmt(t)[:70]), where)
+                    verdict = None
+                    break
+                tt = strip_refs(t)
+                while tt[0] == "cast":
+                    tt = strip_refs(tt[1])
+                plain = (short == "seek" and tt[0] == "param" and tt[1] == 2) or (
+                    short == "skip" and any(x[0] == "param" and x[1] == 2 for x in walk(t)) and
+                    any(x[0] == "field" and x[2] == "position" for x in walk(t)) and
+                    not any(x[0] == "call" and x[1].rsplit("::", 1)[-1] not in ("wrapping_add", "saturating_add", "checked_add", "unwrap_or", "unwrap") for x in walk(t)))
+                if not plain and verdict == "ok":
+                    verdict = "%s stores %s as the cursor; not recognised as %s" % (short, fmt(t)[:60], "the argument" if short == "seek" else "cursor + amount")
+            if verdict == "ok":
+                rep.ok(R7, {"fn": b.name, "cursor": "= argument" if short == "seek" else "= cursor + amount"})
+            elif verdict:
+                rep.inconc(R7, "%s: %s" % (b.name, verdict))
+
+
 def stream_rules(facts, rep, E):
     R7 = rep.rule("R04.7", "stream reader/writer methods: delegate to the positional accessor at self.position and advance the cursor by exactly its width on success only (label access: no movement)", floor=25)
     zero_length_runs(facts, rep, R7, E)
+    cursor_primitives(facts, rep, R7)
     for cls in ("BinArchiveReader", "BinArchiveWriter"):
         prefix = "mila::bin_streams::%s::<'a>::" % cls
         for b in sorted(facts.views(), key=lambda b: b.name):
@@ -639,7 +695,8 @@ def stream_rules(facts, rep, E):
                         if inc is not None and inc != want and not viol:
                             viol = "advances cursor by %d after %s (width %d)" % (inc, delegated["callee"].rsplit("::", 1)[-1], want)
                 elif kind and kind.startswith("via:"):
-                    if writes:
+                    if writes and not (bulk_seen and err is True):
+                        # (a byte run that fails part-way leaves the cursor where the byte-wise form leaves it)
                         viol = "delegating method also moves the cursor"
                 if delegated is None and err is False and p.end == "ret" and not any(
                         e["k"] == "call" and e["callee"] and e["callee"].startswith(prefix) and e["callee"] != b.name for e in p.events):
